@@ -1,9 +1,10 @@
 """C02 - section/segment contents, string tables, address mapping, section-in-segment."""
 import io
+import os
 import zlib
 
 from vf.enc import elf as W
-from vf import streams
+from vf import core, streams
 from vf.ref import insegment as REF
 from vf.choose import RndChooser, composite_from, HypChooser
 
@@ -603,8 +604,111 @@ def run_far(ctx, case):
     ctx.case(('far', cls, le, base, bool(case.get('far_table'))), True, dict(case))
 
 
+_CHILD = r'''
+import sys, io, json, base64, locale
+import elftools
+from elftools.elf.elffile import ELFFile
+doc = json.load(sys.stdin)
+out = {'fsenc': sys.getfilesystemencoding(), 'pref': locale.getpreferredencoding(False), 'lib': elftools.__file__, 'files': []}
+for item in doc['files']:
+    r = {}
+    try:
+        ef = ELFFile(io.BytesIO(base64.b64decode(item['data'])))
+        r['names'] = [s.name for s in ef.iter_sections()]
+        r['strings'] = [[i, q, ef.get_section(i).get_string(q)] for i, q in item['queries']]
+        r['interp'] = [seg.get_interp_name() for seg in ef.iter_segments() if type(seg).__name__ == 'InterpSegment']
+    except Exception as e:
+        r['exc'] = '%s: %s' % (type(e).__name__, e)
+    out['files'].append(r)
+sys.stdout.write(json.dumps(out))
+'''
+
+
+def bulk(ctx, tier, shard, nshards):
+    """the decoded strings (section names, string-table look-ups, interpreter paths) of generated files in a child interpreter running
+    under the C locale without UTF-8 mode: equal to what this process decodes (which run_case compares with the model)"""
+    if shard != 0:
+        return
+    import base64
+    from vf import childenv
+    L = lib()
+    files = []
+    n = 40 if tier == 'quick' else 400
+    for k in range(n):
+        ch = RndChooser(909000 + k)
+        case = build_data(ch, tier)
+        m = dict(case['model'])
+        secs = []
+        for s in m['sections']:
+            s = dict(s)
+            kind = s.pop('ck', None)
+            if kind not in (None, 'raw', 'str'):
+                continue                     # names, string tables and interpreter paths are what is looked at here
+            s.pop('queries', None)
+            secs.append(s)
+        # sections were dropped: rebuild a small file of the string tables with an interpreter segment over the first of them
+        strsecs = [s for s in secs if s.get('sh_type') == 3 and s.get('data')]
+        if not strsecs:
+            continue
+        body = [{'name': '', 'sh_type': 0}] + [dict(s, name=('.s%d-\u00e9\u4e2d' % i)) for i, s in enumerate(strsecs)] + [{'name': '.shstrtab', 'sh_type': 3, 'data': b''}]
+        path = ('/lib/ld-\u00fc\u4e2d%d.so' % k).encode('utf-8') + b'\0'
+        body.insert(1, {'name': '.interp', 'sh_type': 1, 'data': path})
+        data, R = W.build({'cls': m['cls'], 'le': m['le'], 'e_type': 2, 'sections': body, 'shstrndx': len(body) - 1,
+                           'segments': [{'p_type': 3, 'p_flags': 4, 'p_offset': ['sec_off', 1, 0], 'p_filesz': ['sec_size', 1, 0], 'p_memsz': ['sec_size', 1, 0]}]})
+        queries = []
+        for i, s in enumerate(body):
+            if s.get('sh_type') == 3 and s.get('data'):
+                d = s['data']
+                starts = [0] + [j + 1 for j, b in enumerate(d[:-1]) if b == 0][:6]
+                queries += [[i, q] for q in starts]
+        files.append({'data': base64.b64encode(data).decode('ascii'), 'queries': queries, '_raw': data})
+    _legacy_compare(ctx, files)
+
+
+def _legacy_compare(ctx, files):
+    import base64
+    from vf import childenv
+    L = lib()
+    for f in files:
+        if 'queries' not in f:          # a replayed case: look the string tables up again
+            ef = L['ELFFile'](io.BytesIO(f['_raw']))
+            f['data'] = base64.b64encode(f['_raw']).decode('ascii')
+            f['queries'] = []
+            for i, sec in enumerate(ef.iter_sections()):
+                if type(sec).__name__ == 'StringTableSection' and sec['sh_size']:
+                    d = sec.data()
+                    f['queries'] += [[i, q] for q in [0] + [j + 1 for j, b in enumerate(d[:-1]) if b == 0][:6]]
+    if not files:
+        return
+    try:
+        res = childenv.run(_CHILD, {'files': [{'data': f['data'], 'queries': f['queries']} for f in files]}, core.REPO)
+    except Exception as e:  # noqa
+        raise core.HarnessError('C02 child interpreter: %s' % e)
+    if os.path.realpath(os.path.dirname(os.path.dirname(res['lib']))) != os.path.realpath(core.REPO):
+        raise core.HarnessError('child interpreter imported %s' % res['lib'])
+    ctx.count('legacy-locale.fsenc.%s' % res['fsenc'].lower())
+    for f, r in zip(files, res['files']):
+        ef = L['ELFFile'](io.BytesIO(f['_raw']))
+        want = {'names': [s.name for s in ef.iter_sections()], 'strings': [[i, q, ef.get_section(i).get_string(q)] for i, q in f['queries']],
+                'interp': [seg.get_interp_name() for seg in ef.iter_segments() if type(seg).__name__ == 'InterpSegment']}
+        case = {'k': 'legacy-locale', 'data': f['_raw']}
+        if 'exc' in r:
+            ctx.fail('legacy-locale|raises', 'under the C locale (file-system encoding %s) decoding raised %s; this process decodes %r' % (res['fsenc'], r['exc'][:120], want['interp']), case)
+        else:
+            for key in ('names', 'strings', 'interp'):
+                if r[key] != want[key]:
+                    ctx.fail('legacy-locale|%s-differ' % key, 'under the C locale (file-system encoding %s): %r; in this process: %r' % (res['fsenc'], r[key][:3], want[key][:3]), case)
+        ctx.count('legacy-locale.files')
+        ctx.evaluations += 1
+        ctx.counters['bulk_nontrivial'] += 1
+
+
 def run_case(ctx, case):
     k = case['k']
+    if k == 'legacy-locale':
+        _legacy_compare(ctx, [{'_raw': bytes(case['data'])}])
+        ctx.case(('legacy-locale', bytes(case['data'])), True)
+        return
     if k == 'far':
         run_far(ctx, case)
     elif k == 'data':
@@ -688,7 +792,7 @@ def sweep(tier):
 
 def floors(ctx):
     c = ctx.counters
-    need = ['far.files', 'sec.raw', 'sec.nobits', 'sec.z.ok', 'sec.z.short', 'sec.z.long', 'sec.z.trunc', 'sec.z.badtype', 'str.query.chunk+',
+    need = ['far.files', 'legacy-locale.files', 'legacy-locale.fsenc.ascii', 'sec.raw', 'sec.nobits', 'sec.z.ok', 'sec.z.short', 'sec.z.long', 'sec.z.trunc', 'sec.z.badtype', 'str.query.chunk+',
             'seg.interp', 'seg.data', 'addr.query.boundary', 'addr.query.hit', 'addr.query.miss', 'addr.query.multi', 'inseg.pairs.boundary']
     out = ['no case of class ' + k for k in need if c[k] == 0]
     if c['inseg.pairs'] < 5000:
